@@ -281,9 +281,25 @@ Fixpoint sweep_each (st : state) (ds : list id) (wnow : time) (fr : fresh_dels)
       end
   end.
 
+(* a topic row cannot be hard-deleted while a message still refers to it (FK NO ACTION) *)
+Definition topic_has_messages (st : state) (i : id) : bool :=
+  existsb (fun m => N.eqb (m_topic m) i) (msgs st).
+
 Definition run_job (st : state) (now : time) (j : job) (min_age max : Z) (chosen : list id)
-           (wnow : time) (fr : fresh_dels) : result :=
+           (failed : bool) (wnow : time) (fr : fresh_dels) : result :=
   let matching := job_matches st j now min_age in
+  if failed then
+    (* the choice made by LIMIT is not observable when the transaction rolled back: the
+       failure is legal iff some legal choice fails, i.e. (for the only job that can hit a
+       foreign key) some matching topic still has messages *)
+    match j with
+    | JPruneDeletedTopics =>
+        mkResult st (RErr Unknown) []
+                 (if (0 <? max) && existsb (topic_has_messages st) matching then []
+                  else ["unexpected-job-failure"%string])
+    | _ => mkResult st (RErr Unknown) [] ["unexpected-job-failure"%string]
+    end
+  else
   let n0 := if choice_legal matching chosen max then [] else ["illegal-choice"%string] in
   let cnt := RCount (Z.of_nat (length chosen)) in
   match j with
@@ -307,9 +323,8 @@ Definition run_job (st : state) (now : time) (j : job) (min_age max : Z) (chosen
   | JPruneDeletedTopics =>
       (* FK NO ACTION from messages.topic_id and snapshots.topic_id: the DELETE fails and the
          whole job rolls back; FK SET NULL from subscriptions.dead_letter_topic_id *)
-      if existsb (fun m => mem_id (m_topic m) chosen) (msgs st) ||
-         existsb (fun n => mem_id (n_topic n) chosen) (snaps st)
-      then mkResult st (RErr Unknown) [] n0
+      if existsb (topic_has_messages st) chosen
+      then mkResult st (RErr Unknown) [] ("job-should-have-failed"%string :: n0)
       else
         let ss := map (fun s => match s_dl_topic s with
                                 | Some t => if mem_id t chosen
@@ -320,7 +335,9 @@ Definition run_job (st : state) (now : time) (j : job) (min_age max : Z) (chosen
                                             else s
                                 | None => s
                                 end) (subs st) in
-        done (set_topics (set_subs st ss) (del_ids t_id chosen (topics st))) cnt [] n0
+        (* after the fix of F10 the topics' snapshots go with them *)
+        done (set_snaps (set_topics (set_subs st ss) (del_ids t_id chosen (topics st)))
+                        (filter (fun n => negb (mem_id (n_topic n) chosen)) (snaps st))) cnt [] n0
   | JExpireSubs =>
       done (set_subs st (upd_where (fun s => mem_id (s_id s) chosen) (s_set_deleted wnow) (subs st)))
            cnt (sort_ids chosen) n0
@@ -565,5 +582,5 @@ Definition step (st : state) (now : time) (o : op) : result :=
                                  (s_push x) (s_labels x)) (subs st)))
                RUnit [] []
       end
-  | Job j min_age max chosen wnow fr => run_job st now j min_age max chosen wnow fr
+  | Job j min_age max chosen failed wnow fr => run_job st now j min_age max chosen failed wnow fr
   end.
